@@ -37,7 +37,7 @@ KINDS = {
     "base": ("Base", False, "ref", True, None), "derived": ("Derived", False, "ref", True, None), "other": ("Other", False, "ref", True, None),
     "const_base": ("Base", True, "ref", True, None), "const_derived": ("Derived", True, "ref", True, None),
     "shared_base": ("Base", False, "shared", True, None), "shared_derived": ("Derived", False, "shared", True, None),
-    "shared_const_base": ("Base", True, "shared", True, None), "ptr_base": ("Base", False, "ref", True, None),
+    "shared_const_base": ("Base", True, "shared", True, None), "shared_const_derived": ("Derived", True, "shared", True, None), "ptr_base": ("Base", False, "ref", True, None),
     "script_base": ("Base", False, "shared", True, None), "script_derived": ("Derived", False, "shared", True, None), "script_other": ("Other", False, "shared", True, None),
     "script_fn": ("function", True, "shared", True, None), "dynobj": ("dynobj", False, "shared", True, None), "undef": ("undef", False, "shared", True, None),
     "vector": ("vector", False, "shared", True, None), "map": ("map", False, "shared", True, None), "vector_mixed": ("vector", False, "shared", True, "mixed"),
@@ -149,7 +149,7 @@ def run(ctx, tier, seed, scale=1.0):
             calls = [(rng.choice(kinds),) for _ in range(10)]
             # always attack every signature with a same-type const / non-const / derived / unrelated argument
             calls += [("lit_int",), ("var_int",), ("const_int",), ("var_dbl",), ("lit_bool",), ("var_str",), ("lit_str",), ("derived",), ("const_derived",),
-                      ("shared_derived",), ("other",), ("undef",), ("vector",), ("map",), ("vector_mixed",), ("script_other",)][:rng.randrange(4, 12)]
+                      ("shared_derived",), ("shared_const_derived",), ("other",), ("undef",), ("vector",), ("map",), ("vector_mixed",), ("script_other",)][:rng.randrange(4, 12)]
             calls += [(), (rng.choice(kinds), rng.choice(kinds))]          # wrong arity
         else:
             sigs = rng.sample(range(len(CAT2)), rng.choice([1, 2, 3]))
